@@ -374,6 +374,9 @@ func (u *Unit) applyContract(st *State, instr ssa.Instruction, c *Contract, name
 		}
 	}
 	for _, e := range c.Ensures {
+		if hasTag(e.Tags, "assumed") {
+			u.usedExternal["assumed clause of "+name+" (not proved against its body): "+e.Text] = true
+		}
 		ctx := &EvalCtx{u: u, st: st, old: pre, bound: map[string]bool{}}
 		bind(ctx)
 		ctx.closureArgs = closureArgs
